@@ -7,6 +7,7 @@ import Lean.Data.Json
 import TrashVerif.Model.Date
 import TrashVerif.Model.PathStr
 import TrashVerif.Spec.C03
+import TrashVerif.Model.Index
 open Lean TrashVerif
 
 def hexOf (j : Json) (k : String) : Except String Bytes := do
@@ -73,6 +74,20 @@ def handle (j : Json) : Except String Json := do
     pure (Json.mkObj [("r", r)])
   | "c03holds" => do
     pure (Json.mkObj [("r", C03.Holds (← hexOf j "content") (← hexOf j "loc"))])
+  | "glob" => do
+    pure (Json.mkObj [("r", Glob.globMatch (decodeSE (← hexOf j "pat")) (decodeSE (← hexOf j "name")))])
+  | "rmMatches" => do
+    match rmMatches (← hexOf j "pat") (← hexOf j "loc") with
+    | some r => pure (Json.mkObj [("r", r)])
+    | none => pure (Json.mkObj [("r", "crash")])
+  | "parseIndexes" => do
+    match parseIndexes (← hexOf j "s") (← natOf j "n") with
+    | .ok is => pure (Json.mkObj [("r", "ok"), ("indexes", Json.arr (is.toArray.map fun (i : Nat) => (i : Json)))])
+    | .invalid => pure (Json.mkObj [("r", "invalid")])
+    | .crash => pure (Json.mkObj [("r", "crash")])
+  | "inScope" => do
+    pure (Json.mkObj [("r", inScope (← hexOf j "dir") (← hexOf j "loc"))])
+  | "emptyReply" => do pure (Json.mkObj [("r", emptyReplyYes (← hexOf j "s"))])
   | "normpath" => do pure (Json.mkObj [("r", jhex (normpath (← hexOf j "s")))])
   | "dirname" => do pure (Json.mkObj [("r", jhex (dirname (← hexOf j "s")))])
   | "basename" => do pure (Json.mkObj [("r", jhex (basename (← hexOf j "s")))])
